@@ -10,7 +10,9 @@
 (* The begin events must follow the generated history.  The event stream   *)
 (* predicted by the A-layer evaluator is compared too (drift only).        *)
 (*                                                                         *)
-(* trace = [id, kind, exprs, h, nodes, evs]; event = [i, ev, n | val].     *)
+(* trace = [id, kind, cls, exprs, h, nodes, evs]; event = [i, ev, n | val]; *)
+(* cls = "plain" (EvaluationMapper) or "cached" (CachedEvaluationMapper:    *)
+(* the same invariants must hold, it only executes fewer operations).       *)
 (***************************************************************************)
 EXTENDS C12_CSE, C12_Env, Json, IOUtils
 VARIABLES tid, l, nb, insts, verdict
@@ -77,7 +79,8 @@ Report ==
                    ELSE IF nb # Len(rec.h) \/ (\E i \in 1..Len(insts) : insts[i].busy) THEN "ill-formed-end"
                    ELSE "OK"
           skip  == Cardinality({i \in 1..Len(insts) : "SKIP" \in insts[i].verdicts})
-          drift == Recorded(rec) # Predicted(rec.exprs, rec.h)
+          \* the A-layer evaluator transcribes the plain EvaluationMapper only
+          drift == rec.cls = "plain" /\ Recorded(rec) # Predicted(rec.exprs, rec.h)
       IN (v = "OK" /\ skip = 0 /\ ~drift)
          \/ PrintT(ToJson([id |-> rec.id, v |-> v, at |-> l, skip |-> skip,
                            drift |-> IF drift THEN 1 ELSE 0,
